@@ -129,9 +129,11 @@ class Ev:
         for st in body:
             self.stmt(st)
 
+    BUDGET = 20000          # statements per evaluation; a rule that runs a numeric iteration raises it for its run
+
     def tick(self):
         self.steps += 1
-        if self.steps > 20000:
+        if self.steps > self.BUDGET:
             raise Undecided("evaluation budget exceeded")
 
     def stmt(self, st):
